@@ -4,9 +4,12 @@ package checks
 import (
 	"fmt"
 	"os"
+	"path/filepath"
 	"runtime"
 	"sort"
 	"strconv"
+	"strings"
+	"syscall"
 	"time"
 
 	"verif/explore"
@@ -79,9 +82,19 @@ func Main(id, tier string) int {
 	c.Deadline = c.Start.Add(budget(tier))
 	c.Rep = report.New(id)
 	c.Ev = &report.Evidence{PropertyID: id, Tier: tier, Seed: seed, Level: ck.Level, Coverage: map[string]interface{}{}}
+	explore.LoadPoison()
 	stopWatch := watchdog(c)
 	ck.Run(c)
 	close(stopWatch)
+	if len(explore.Poisoned) > 0 {
+		var l []string
+		for _, s := range explore.Poisoned {
+			l = append(l, s.String())
+		}
+		c.Ev.Coverage["abandoned_blocks"] = l
+		c.Ev.Coverage["abandoned_blocks_rule"] = "blocks that did not finish in an earlier process of this run (watchdog: 10 minutes or 24 GiB); the run was started over and these blocks end with a fault of kind hang, which C07 reports and twins compare"
+		os.Remove(os.Getenv("VERIF_POISON"))
+	}
 	res := c.Rep.Finish()
 	c.Ev.Violations = res.Violations
 	if res.Known == nil {
@@ -250,10 +263,46 @@ func watchdog(c *Ctx) chan struct{} {
 			runtime.ReadMemStats(&ms)
 			stuck := explore.InFlight(10 * time.Minute)
 			if ms.Sys > 24<<30 || len(stuck) > 0 {
-				fmt.Printf("harness error: check %s aborted by the watchdog (memory %d MiB, %d executions running for more than 10 minutes)\n", c.ID, ms.Sys>>20, len(stuck))
-				for _, s := range explore.InFlight(30 * time.Second) {
-					fmt.Println("  suspect:", s)
+				if len(stuck) == 0 {
+					// memory: the longest-running execution is the suspect, if it is running for a minute or more
+					if l := explore.InFlight(time.Minute); len(l) > 0 {
+						stuck = l[:1]
+					}
 				}
+				fmt.Printf("watchdog: check %s stopped (memory %d MiB, %d blocks that do not finish)\n", c.ID, ms.Sys>>20, len(stuck))
+				for _, s := range stuck {
+					fmt.Println("  abandoned:", s)
+				}
+				restarts, _ := strconv.Atoi(os.Getenv("VERIF_RESTARTS"))
+				if len(stuck) == 0 || restarts >= 8 {
+					fmt.Printf("harness error: check %s aborted by the watchdog\n", c.ID)
+					os.Exit(2)
+				}
+				// start over in a new process that ends the abandoned blocks with a fault of kind "hang"
+				path := os.Getenv("VERIF_POISON")
+				if path == "" {
+					root := os.Getenv("VERIF_ROOT")
+					if root == "" {
+						root = "/verif"
+					}
+					os.MkdirAll(filepath.Join(root, ".scratch"), 0o755)
+					path = filepath.Join(root, ".scratch", fmt.Sprintf("abandoned-%s-%s-%d.json", c.ID, c.Tier, os.Getpid()))
+				}
+				if err := explore.SavePoison(path, stuck); err != nil {
+					fmt.Println("harness error:", err)
+					os.Exit(2)
+				}
+				env := []string{"VERIF_POISON=" + path, fmt.Sprintf("VERIF_RESTARTS=%d", restarts+1)}
+				for _, e := range os.Environ() {
+					if !strings.HasPrefix(e, "VERIF_POISON=") && !strings.HasPrefix(e, "VERIF_RESTARTS=") {
+						env = append(env, e)
+					}
+				}
+				exe, err := os.Executable()
+				if err == nil {
+					err = syscall.Exec(exe, os.Args, env)
+				}
+				fmt.Println("harness error: cannot start over:", err)
 				os.Exit(2)
 			}
 		}
